@@ -205,7 +205,27 @@ def rule_cost_rows(ctx):
         except ValueError as ex:
             det = f"index expression not evaluable: {ex}"
     ctx.ob(R3, f"{MO}::_get_gen_index::dcline-row", ok, det, fi.loc(st) if st is not None else fi.loc())
+    fdc = ctx.repo.func("pandapower.pypower.dcopf_solver:dcopf_solver")
+    k = 0
+    for st in ast.walk(fdc.node):
+        if isinstance(st, ast.Assign) and isinstance(st.targets[0], ast.Subscript) and norm(st.targets[0].value, 10) == "polycf" and "gencost[" in norm(st.value, 80):
+            k += 1
+            t = norm(st.value, 80).replace(" ", "")
+            sel = norm(st.targets[0].slice, 30).replace(" ", "").strip("()").split(",")[0]
+            ok = t.startswith(f"gencost[ipol[{sel}],")
+            ctx.ob(R3, f"pandapower.pypower.dcopf_solver::dcopf_solver::polycf[{sel}]", ok,
+                   f"polycf[{sel}] = {t}" if ok else f"`polycf[{sel}, ...] = {t}` indexes gencost with a position inside the polynomial subset instead of "
+                   f"ipol[{sel}]: the coefficients of another generator (e.g. a pwl row) are used", fdc.loc(st))
+    if k < 2:
+        ctx.fail(f"dcopf_solver: only {k} polycf assignments from gencost found (confirmed: 2)")
     fa = ctx.repo.func("pandapower.pypower.makeAy:makeAy")
+    pst = [st for st in ast.walk(fa.node) if isinstance(st, ast.Assign) and norm(st.targets[0], 5) == "p" and "gencost[" in norm(st.value, 80)]
+    for i, st in enumerate(pst):
+        t = norm(st.value, 100).replace(" ", "")
+        ctx.ob(R3, f"pandapower.pypower.makeAy::makeAy::breakpoints-per-unit#{i}", t.endswith("/baseMVA"),
+               f"p = {t}" if t.endswith("/baseMVA") else f"`p = {t}`: the break points stay in MW while Pg is per unit - the cost constraints are wrong for sn_mva != 1", fa.loc(st))
+    if not pst:
+        ctx.fail("makeAy: break point assignment not found")
     if _lints.stale_loop_variable(ctx, R3, [fa]) < 2:
         ctx.fail("makeAy: the two loops over the piecewise-linear costs were not found")
 
@@ -214,6 +234,8 @@ def variants(repo):
     p = "pandapower/opf/make_objective.py"
     V = Variant
     return [
+        V("linear dc costs read from the wrong gencost rows", "pandapower/pypower/dcopf_solver.py", replace_once("polycf[ilin, 1:3] = gencost[ipol[ilin], COST:COST + 2]", "polycf[ilin, 1:3] = gencost[ilin, COST:COST + 2]"), "polycf[ilin]"),
+        V("pwl break points not per unit", "pandapower/pypower/makeAy.py", replace_once("p = gencost[i, COST:COST + 2 * ns - 1:2] / baseMVA", "p = gencost[i, COST:COST + 2 * ns - 1:2]"), "breakpoints-per-unit"),
         V("dcline cost on the wrong auxiliary generator", p, replace_once("element = len(net.gen.index) - 2*len(net.dcline) + dc_idx*2 + 1", "element = len(net.gen.index) - 2*len(net.dcline) + dc_idx + 1"), "dcline-row"),
         V("makeAy reuses the segment count of the last row", "pandapower/pypower/makeAy.py", lambda s: s.replace("    for i in iycost:\n        ns = gencost[i, NCOST].astype(int64)\n        ## FIXME", "    for i in iycost:\n        ## FIXME", 1), "makeAy"),
         V("twin: first auxiliary generator in a local", p, replace_once("element = len(net.gen.index) - 2*len(net.dcline) + dc_idx*2 + 1", "first_dc_gen = len(net.gen.index) - 2*len(net.dcline)\n        element = first_dc_gen + 2*dc_idx + 1"), None),
